@@ -1,4 +1,5 @@
 import Drv.Basic
+import Codec.Utf8All
 /-! The pure sub-protocols (no graph handle): `hex …` (C15, C16) and `label …` (C17). Every hex line shows the
     result of the accessor under test and, after ` ; `, the answer of the byte-slice oracle computed from the bytes
     the token was built from. -/
@@ -23,6 +24,10 @@ def showOptByte : Option UInt8 → String
   | some b => "ok " ++ toString b.toNat
 
 def parseNat (s : String) : Option Nat := s.toNat?
+
+def showOptBool : Option Bool → String
+  | none => "panic"
+  | some b => toString b
 
 structure PureCfg where
   concatRepaired : Bool := false
@@ -116,6 +121,47 @@ def execHex (cfg : PureCfg) : List String → String
           | none => "err"
         s!"ok {showBytes bs} {back} {showBytes bs} {back} ; ok {showBytes bs} {n} {showBytes bs} {n}"
       else "bad-op"
+    | none => "bad-op"
+  | ["ofint", w, n] =>
+    -- `From<i8>` / `From<i16>` / `From<i32>` (and `From<f32>` at four bytes) of the pattern
+    match parseNat w, parseNat n with
+    | some w, some n =>
+      if (w = 1 ∨ w = 2 ∨ w = 4) ∧ n < 256 ^ w then
+        let b := showBytes (HI.ofBitsW w n)
+        let f := if w = 4 then b else "-"
+        s!"ok {b} {f} ; ok {b} {f}"
+      else "bad-op"
+    | _, _ => "bad-op"
+  | ["ofbool", b] =>
+    if b = "1" ∨ b = "0" then
+      let bs := HI.ofBool (b = "1")
+      let r := s!"ok {showBytes bs} {showOptBool (HI.toBool bs)}"
+      r ++ " ; " ++ s!"ok {showBytes bs} {showOptBool (some (decide (b = "1")))}"
+    else "bad-op"
+  | ["bool", h] =>
+    -- `to_bool` (panics on the empty byte string) and `is_empty`
+    match parseHexTok h with
+    | some x =>
+      s!"{showOptBool (HI.toBool x.toBytes)} {x.len == 0} ; {showOptBool (x.toBytes[0]?.map (· == 1))} {x.toBytes.isEmpty}"
+    | none => "bad-op"
+  | ["utf8", h] =>
+    -- `to_utf8`: the text, or `Err` when the bytes are not UTF-8
+    match parseHexTok h with
+    | some x =>
+      let r := match U8.decAll x.toBytes with
+        | some cs => "ok " ++ showTextTok cs
+        | none => "err"
+      r ++ " ; " ++ r
+    | none => "bad-op"
+  | ["ofstr", t] =>
+    -- `from_str_bytes`, then `to_utf8` of the result
+    match parseTextTok t with
+    | some cs =>
+      let bs := U8.encAll cs
+      let back := match U8.decAll bs with
+        | some cs' => showTextTok cs'
+        | none => "err"
+      s!"ok {showBytes bs} {back} ; ok {showBytes bs} {showTextTok cs}"
     | none => "bad-op"
   | ["concat", a, b] =>
     match parseHexTok a, parseHexTok b with
